@@ -29,7 +29,7 @@ ASSUMPTIONS = ["any injective map from time steps to recorded engine columns (th
                "implied normals are compared within the rounding bound of the cumulative sum: 16*eps*(T*max|z| + max|X|/(sigma*sqrt(dt)))",
                "the distributional clauses of the property are not decided by this check (partial claim)"]
 PROBES = ["implied_normals", "noise_stall", "sigma_zero_skeleton", "merton_zero_intensity", "kou_zero_intensity", "instrument_engine",
-          "init_nondefault", "drift_nonzero", "float64", "n_steps_1", "n_steps_2", "horizon_not_multiple_of_dt"]
+          "init_nondefault", "drift_nonzero", "float64", "n_steps_1", "n_steps_2", "horizon_not_multiple_of_dt", "live_instrument"]
 FNS = ["generate_brownian", "generate_geometric_brownian", "generate_merton_jump", "generate_kou_jump", "MertonJumpStock", "KouJumpStock"]
 
 
@@ -53,6 +53,13 @@ def generate(rng):
                 op["jump_up_prob"] = rng.choice([0.0, 0.3, 1.0])
             if fn in ("MertonJumpStock", "KouJumpStock"):
                 op["n_steps"] = max(op["n_steps"], 1)
+                if rng.chance(0.5):
+                    # a live instrument: it was built with other parameters, another engine and possibly another dtype, simulated,
+                    # then re-parameterised by attribute assignment / cast; the next simulation must follow the current model
+                    op["live"] = {"sigma": rng.choice([0.1, 0.2, 0.3]), "mu": rng.choice([0.0, 0.05]), "jump_per_year": rng.choice([0.0, 5.0, 68.0]),
+                                  "dt": rng.choice([1 / 250, 1 / 12, 0.1]), "dtype": rng.choice([None, "float32", "float64"]),
+                                  "same_shape": rng.chance(0.5), "n_paths": rng.choice([1, 3]), "n_steps": rng.choice([1, 2, 6]),
+                                  "seed": rng.seed31(), "read_volatility": rng.chance(0.5)}
             ops.append(op)
         else:
             fn = rng.choice(["generate_vasicek", "generate_local_volatility_process", "VasicekRate", "LocalVolatilityStock"])
@@ -60,6 +67,10 @@ def generate(rng):
                         "dt": rng.choice([1 / 250, 1 / 12, 0.1]), "n_paths": rng.choice([1, 2, 4]), "n_steps": rng.choice([1, 2, 3, 8, 30]),
                         "init": rng.choice([None, 0.0, 0.07, 1.0, -0.02]), "dtype": rng.choice([None, "float32", "float64"]),
                         "torch_seed": rng.seed31()})
+            if fn == "VasicekRate" and rng.chance(0.5):
+                ops[-1]["live"] = {"sigma": rng.choice([0.01, 0.2]), "kappa": rng.choice([0.2, 2.0]), "theta": rng.choice([0.02, 0.1]),
+                                   "dt": rng.choice([1 / 250, 1 / 12, 0.1]), "dtype": rng.choice([None, "float32", "float64"]),
+                                   "same_shape": rng.chance(0.5), "n_paths": rng.choice([1, 3]), "n_steps": rng.choice([1, 2, 6])}
     return {"profile": "c10", "env": {"default_dtype": "float32"}, "world": {}, "ops": ops}
 
 
@@ -138,17 +149,46 @@ def _execute(program, stats, hist):
                                                dtype=dtype, engine=eng, **kw)
                     stats.probe("kou_zero_intensity")
                 else:
-                    if fn == "MertonJumpStock":
-                        inst = pfi.MertonJumpStock(mu=mu, sigma=sigma, jump_per_year=0.0, jump_mean=op["jump_mean"], jump_std=op["jump_std"],
-                                                   dt=dtv, dtype=dtype, engine=eng)
-                        stats.probe("merton_zero_intensity")
-                    else:
-                        inst = pfi.KouJumpStock(sigma=sigma, mu=mu, jump_per_year=0.0, jump_mean_up=op["jump_mean_up"],
-                                                jump_mean_down=op["jump_mean_down"], jump_up_prob=op["jump_up_prob"], dt=dtv,
-                                                dtype=dtype, engine=eng)
-                        stats.probe("kou_zero_intensity")
-                    stats.probe("instrument_engine")
+                    live = op.get("live")
                     frac = [0.0, 0.0, 0.4, 0.75][op.get("seed", op.get("torch_seed", 0)) % 4] if T >= 2 else 0.0
+                    if live is None:
+                        if fn == "MertonJumpStock":
+                            inst = pfi.MertonJumpStock(mu=mu, sigma=sigma, jump_per_year=0.0, jump_mean=op["jump_mean"], jump_std=op["jump_std"],
+                                                       dt=dtv, dtype=dtype, engine=eng)
+                        else:
+                            inst = pfi.KouJumpStock(sigma=sigma, mu=mu, jump_per_year=0.0, jump_mean_up=op["jump_mean_up"],
+                                                    jump_mean_down=op["jump_mean_down"], jump_up_prob=op["jump_up_prob"], dt=dtv,
+                                                    dtype=dtype, engine=eng)
+                    else:
+                        # earlier life of the same object
+                        eng0 = SimEngine("randn", live["seed"])
+                        if fn == "MertonJumpStock":
+                            inst = pfi.MertonJumpStock(mu=live["mu"], sigma=live["sigma"], jump_per_year=live["jump_per_year"], jump_mean=0.01,
+                                                       jump_std=0.02, dt=live["dt"], dtype=DT[live["dtype"]], engine=eng0)
+                        else:
+                            inst = pfi.KouJumpStock(sigma=live["sigma"], mu=live["mu"], jump_per_year=live["jump_per_year"], jump_mean_up=0.05,
+                                                    jump_mean_down=0.05, jump_up_prob=0.5, dt=live["dt"], dtype=DT[live["dtype"]], engine=eng0)
+                        if live["same_shape"]:
+                            inst.simulate(n_paths=n, time_horizon=(T - 1 - frac) * dtv * (live["dt"] / dtv))
+                        else:
+                            inst.simulate(n_paths=live["n_paths"], time_horizon=(live["n_steps"] - 1) * live["dt"])
+                        if live["read_volatility"]:
+                            inst.volatility, inst.variance
+                        # ... re-parameterised by plain attribute assignment and cast
+                        inst.sigma, inst.mu, inst.jump_per_year, inst.dt, inst.engine = sigma, mu, 0.0, dtv, eng
+                        if fn == "MertonJumpStock":
+                            inst.jump_mean, inst.jump_std = op["jump_mean"], op["jump_std"]
+                        else:
+                            inst.jump_mean_up, inst.jump_mean_down, inst.jump_up_prob = op["jump_mean_up"], op["jump_mean_down"], op["jump_up_prob"]
+                        if dtype is not None:
+                            inst.to(dtype)
+                        else:
+                            wd = DT[live["dtype"]] if live["dtype"] is not None else torch.get_default_dtype()
+                            eps = torch.finfo(wd).eps
+                        stats.probe("live_instrument")
+                        stats.fault("F3_reparameterised_live_object")
+                    stats.probe("merton_zero_intensity" if fn == "MertonJumpStock" else "kou_zero_intensity")
+                    stats.probe("instrument_engine")
                     if frac:
                         stats.probe("horizon_not_multiple_of_dt")
                     inst.simulate(n_paths=n, time_horizon=(T - 1 - frac) * dtv, init_state=(init,) if init is not None else None)
@@ -220,7 +260,23 @@ def _execute(program, stats, hist):
                     out = st.generate_vasicek(n, T, init_state=(init,) if init is not None else None, kappa=kappa, theta=theta, sigma=0.0,
                                               dt=dtv, dtype=dtype)
                 elif fn == "VasicekRate":
-                    inst = pfi.VasicekRate(kappa=kappa, theta=theta, sigma=0.0, dt=dtv, dtype=dtype)
+                    live = op.get("live")
+                    if live is None:
+                        inst = pfi.VasicekRate(kappa=kappa, theta=theta, sigma=0.0, dt=dtv, dtype=dtype)
+                    else:
+                        inst = pfi.VasicekRate(kappa=live["kappa"], theta=live["theta"], sigma=live["sigma"], dt=live["dt"], dtype=DT[live["dtype"]])
+                        if live["same_shape"]:
+                            inst.simulate(n_paths=n, time_horizon=(T - 1) * live["dt"])
+                        else:
+                            inst.simulate(n_paths=live["n_paths"], time_horizon=(live["n_steps"] - 1) * live["dt"])
+                        inst.kappa, inst.theta, inst.sigma, inst.dt = kappa, theta, 0.0, dtv
+                        if dtype is not None:
+                            inst.to(dtype)
+                        else:
+                            wd = DT[live["dtype"]] if live["dtype"] is not None else torch.get_default_dtype()
+                            eps = torch.finfo(wd).eps
+                        stats.probe("live_instrument")
+                        stats.fault("F3_reparameterised_live_object")
                     inst.simulate(n_paths=n, time_horizon=(T - 1) * dtv, init_state=(init,) if init is not None else None)
                     out = inst.spot
                     T = out.shape[1]
